@@ -47,6 +47,8 @@ def run(ctx):
     obs = recvlib.harness(ctx, ["-n", n, "c20"])
     if obs is None:
         return
+    srv = [c for c in obs if c.get("name") == "server"]
+    obs = [c for c in obs if c.get("name") != "server"]
     if rp is not None:
         obs = [c for c in obs if c["name"] == rp.get("case", {}).get("name")] or obs
         ctx.level = "other"
@@ -56,6 +58,11 @@ def run(ctx):
         r = oracle(c)
         if r:
             fails.append((r[0], r[1], c))
+    bad = [o for o in srv if not o["ok"]]
+    if bad:
+        o = bad[0]
+        fails.append(("server-value-changed", "stock server, mode None: a ByteString of %d bytes written by a client (single-chunk WriteRequest) read back differently after %d later requests on the same and on another connection: sent %s read %s %s" % (
+            o["len"], o["other_requests"], o["sent"][:40], o["read"][:40], o.get("err", "")), {"name": "server", "rounds": srv[:o["round"] + 1]}))
     corr_ok, mism, idx = True, [], []
     if rp is None:
         okc, idx, clog = ctx.eval_cases(IMPORTS, CTYPE, [term(c) for c in obs], AGREE, shard=4)
@@ -72,8 +79,9 @@ def run(ctx):
     ctx.coverage.update({
         "evaluations": sum(len(c["msgs"]) for c in obs),
         "distinct_nontrivial": len({m["sent"] for c in obs for m in c["msgs"] if m["chunks"] >= 1 and len(m["sent"]) > 100}),
-        "rule": "%d histories x mode None / toy Sign / toy SignAndEncrypt on a real server SecureChannel over TCP: 2-6 WriteRequests carrying a ByteString of 1..3000 bytes, each sent as 1-3 chunks, traffic on a second channel in between; the decoded request is kept, re-encoded at delivery and again after all later traffic, its ByteString compared with what was sent, the memory windows of all delivered ByteStrings checked for overlap, three successive uacp.Conn.Receive buffers checked for identity; the frames are replayed through Model.RecvHeap in Coq and the model's final reading of every delivered message compared with the implementation's; distinct = distinct message bodies longer than 50 bytes" % n,
+        "rule": "%d histories x mode None / toy Sign / toy SignAndEncrypt on a real server SecureChannel over TCP: 2-6 WriteRequests carrying a ByteString of 1..3000 bytes, each sent as 1-3 chunks, traffic on a second channel in between; the decoded request is kept, re-encoded at delivery and again after all later traffic, its ByteString compared with what was sent, the memory windows of all delivered ByteStrings checked for overlap, three successive uacp.Conn.Receive buffers checked for identity; plus the REAL SERVER LOOP: a stock server (mode None) and two clients, per round a ByteString of 1..4000 bytes is written (single-chunk request, the server keeps the decoded value as the node's value), 2-6 further writes/reads follow on the same and on the other connection, then the value is read back and compared; the frames of the channel-level histories are replayed through Model.RecvHeap in Coq and the model's final reading of every delivered message compared with the implementation's; distinct = distinct message bodies longer than 50 bytes" % n,
         "samples": [small(obs[0])],
+        "server_loop_rounds": len(srv), "server_loop_rounds_ok": sum(1 for o in srv if o["ok"]),
         "multi_chunk_messages": sum(1 for c in obs for m in c["msgs"] if m["chunks"] > 1),
         "traces_validated_against_impl": len(obs),
         "model_impl_mismatches": len(idx),
@@ -83,6 +91,6 @@ def run(ctx):
         if key in seen:
             continue
         seen.add(key)
-        if ctx.finding(key, why, {"case": small(c), "how": "recvharness c20 with the same seed regenerates the history by name; ./check C20 --replay <this file>"}):
+        if ctx.finding(key, why, {"case": small(c) if "msgs" in c else c, "how": "recvharness c20 with the same seed regenerates the history by name; ./check C20 --replay <this file>"}):
             new += 1
     ctx.conclude(proof_ok, corr_ok, new, detail)
